@@ -79,6 +79,21 @@ theorem union_parse_drops_proto_named_key :
       validate [] false 10 U (.obj []) = .ok false ∧
       noProtoNamedProps [] U = false := by decide +kernel
 
+/-- A union whose first member holds a Map at a property and whose second member accepts ANY object there (`{ c?: unknown }`):
+both accept `{ x: new Map() }`, the deep merge of the two parsed branches replaces the Map by the second projection `{}` —
+the leaf is not preserved — and parsing the result again gives yet another value (D33b). Hypothesis: `noLaxObjectBesideBuiltin`. -/
+private def UM : RT := .anyOf [.object [("x", .map (.typeof "string") (.typeof "number")), ("t", .typeof "string")] [],
+  .object [("x", .object [("c", .optional .any)] [])] []]
+private def inpM : JsVal := .obj [("x", .map [(.str "k", .num "1")]), ("t", .str "a")]
+
+theorem union_builtin_beside_lax_object_loses_leaf :
+    validate [] false 10 UM inpM = .ok true ∧
+      (match parseAV [] ⟨false, false⟩ 10 UM inpM with
+        | .ok (.obj [("t", .str "a"), ("x", .obj [])]) => true | _ => false) = true ∧
+      (match parseAV [] ⟨false, false⟩ 10 UM (.obj [("t", .str "a"), ("x", .obj [])]) with
+        | .ok (.obj [("x", .obj [])]) => true | _ => false) = true ∧
+      noLaxObjectBesideBuiltin [] UM inpM = false := by decide +kernel
+
 /-- An intersection of non-object members (here two array types) is validated member-wise but parsed by
 object spread: the result is an index-keyed object, not an array (D29). Hypothesis: `intersectionsOfObjects`. -/
 private def I : RT := .allOf [.array (.typeof "number"), .array (.anyOf [.typeof "string", .typeof "number"])]
